@@ -6,7 +6,7 @@ from .base import Verdict, sig_of, tagged, crash_check, cb_paths
 
 ID = "C06"
 LEVEL = "fault_enumeration"
-RUNS = (3200, 150000)
+RUNS = (3200, 45000)
 RULE = ("one seeded tree of C01 read through one of the four callback entry points; the veto is injected at every consulted file in "
         "turn (complete single-fault enumeration per tree) plus seeded subsets (only main, only a masked drop-in, only the last file, "
         "random subset); each execution is judged on its recorded event history; non-trivial = tree with >= 2 consulted files; "
